@@ -51,7 +51,8 @@ def variants_for(wl, tier):
 
 
 def workload_meta(wl):
-    return {"kind": "auto" if wl["kwargs"].get("method") == "auto" and wl["kwargs"].get("weight") == "auto" else "list"}
+    return {"kind": "auto" if wl["kwargs"].get("method") == "auto" and wl["kwargs"].get("weight") == "auto" else "list",
+            "recovery": bool(wl.get("recovery")), "family": wl.get("family")}
 
 
 def gen_workload(rng, tier):
